@@ -73,11 +73,24 @@ def recipe_size(recipe):
     return g.dim ** KIND_RANK[recipe["kind"]] * ncell
 
 
-def build_field(recipe, vals):
+def cast_vals(vals, ivals, dt):
+    """the array a field of dtype `dt` holds for the requested real parts `vals` (and imaginary
+    parts `ivals` for complex dtypes); the values are rounded to `dt` (the monitor snapshots the
+    real data, so the rounding is part of the *input*, not of the storage)"""
+    dt = np.dtype(dt)
+    arr = np.array(vals, dtype=float)
+    if dt.kind == "c":
+        arr = arr + 1j * np.array(ivals if ivals is not None else [0.0] * len(vals), dtype=float)
+    with np.errstate(all="ignore"):
+        return arr.astype(dt)
+
+
+def build_field(recipe, vals, ivals=None):
     from pde import FieldCollection, ScalarField, Tensor2Field, VectorField
     cls = {"scalar": ScalarField, "vector": VectorField, "tensor": Tensor2Field}
     g = grid_table()[recipe["grid"]][0]()
-    arr = np.array(vals, dtype=float)
+    dt = np.dtype(recipe.get("dtype", "float64"))
+    arr = cast_vals(vals, ivals, dt)
     if recipe["kind"] == "coll":
         ncell = int(np.prod(g.shape))
         members, pos = [], 0
@@ -85,13 +98,12 @@ def build_field(recipe, vals):
             r = KIND_RANK[m["kind"]]
             n = g.dim ** r * ncell
             shp = (g.dim,) * r + tuple(g.shape)
-            members.append(cls[m["kind"]](g, arr[pos:pos + n].reshape(shp), label=m.get("label")))
+            members.append(cls[m["kind"]](g, arr[pos:pos + n].reshape(shp), label=m.get("label"), dtype=dt))
             pos += n
-        return FieldCollection(members, label=recipe.get("label"))
+        return FieldCollection(members, label=recipe.get("label"), dtype=dt)
     r = KIND_RANK[recipe["kind"]]
     shp = (g.dim,) * r + tuple(g.shape)
-    dt = np.dtype(recipe.get("dtype", "float64"))
-    return cls[recipe["kind"]](g, arr.reshape(shp).astype(dt), label=recipe.get("label"), dtype=dt)
+    return cls[recipe["kind"]](g, arr.reshape(shp), label=recipe.get("label"), dtype=dt)
 
 
 def info_of(field):
@@ -112,7 +124,20 @@ def info_of(field):
 
 
 def flat(arr):
-    return tuple(float(x) for x in np.asarray(arr).ravel().tolist())
+    """flattened data as Python numbers: floats (also for integer dtypes), complex for complex dtypes"""
+    return tuple(x if isinstance(x, complex) else float(x) for x in np.asarray(arr).ravel().tolist())
+
+
+def same_vals(a, b):
+    """NaN-safe, exact comparison of two flattened data tuples (a non-finite entry counts as a difference
+    unless both sides hold the same infinity)"""
+    a, b = tuple(a), tuple(b)
+    if len(a) != len(b):
+        return False
+    for x, y in zip(a, b):
+        if not (x == y):
+            return False
+    return True
 
 
 def root_id(arr):
@@ -206,11 +231,11 @@ class RealWorld:
     def _execute(self, op):
         from pde import MemoryStorage
         k = op["op"]
-        mop = {a: b for a, b in op.items() if a not in ("how", "via", "recipe")}
+        mop = {a: b for a, b in op.items() if a not in ("how", "via", "recipe", "ivals")}
         self._last_model_op = mop
         F, S = self.fields, self.stores
         if k == "newField":
-            f = build_field(op["recipe"], op["vals"])
+            f = build_field(op["recipe"], op["vals"], op.get("ivals"))
             mop["info"] = info_of(f)
             mop["vals"] = [q(x) for x in op["vals"]]
             F.append(f)
@@ -220,7 +245,7 @@ class RealWorld:
             if op["fid"] >= len(F):
                 return self._bad(mop)
             f = F[op["fid"]]
-            arr = np.array(op["vals"], dtype=float).reshape(f.data.shape)
+            arr = cast_vals(op["vals"], op.get("ivals"), f.dtype).reshape(f.data.shape)
             how = op.get("how", "inplace")
             if how == "setter":
                 f.data = arr
@@ -339,7 +364,7 @@ class RealWorld:
                 its = list(st.items())
             return None, {"items": [{"t": float(t), "info": info_of(f), "vals": flat(f.data)} for t, f in its]}, mop
         if k == "slice":
-            fs = st[op["a"]:op["b"]]
+            fs = st[op["a"]:op["b"]:op["step"]] if op.get("step") is not None else st[op["a"]:op["b"]]
             return None, {"fields": [{"info": info_of(f), "vals": flat(f.data)} for f in fs]}, mop
         if k == "extractTimeRange":
             kind = op["kind"]
@@ -364,7 +389,13 @@ class RealWorld:
             return None, {"field": {"info": info_of(f), "vals": flat(f.data)}}, mop
         if k == "viewItems":
             v = st.view_field(op["field"])
-            its = list(v.items())
+            if op.get("how") == "iter":     # StorageView.__iter__ / __len__ / times
+                fs, ts = list(v), list(v.times)
+                if len(fs) != len(ts) or len(v) != len(ts):
+                    raise AssertionError("iteration length of the view differs from len(times)")
+                its = list(zip(ts, fs))
+            else:
+                its = list(v.items())
             return None, {"items": [{"t": float(t), "info": info_of(f), "vals": flat(f.data)} for t, f in its]}, mop
         if k == "apply":
             out = op.get("out")
